@@ -19,19 +19,23 @@ def sh(cmd, **kw):
 
 def main():
     patch = os.path.abspath(sys.argv[1])
-    st = sh("git -C /repo status --porcelain").stdout.strip()
+    # VK_EVAL_TREE=<scratch worktree of /repo>: same procedure on that tree (the checks read it through VK_REPO and write
+    # their output outside /verif), so a long re-evaluation does not occupy /repo
+    tree = os.environ.get("VK_EVAL_TREE", "/repo")
+    env = "" if tree == "/repo" else f"VK_REPO={tree} "
+    st = sh(f"git -C {tree} status --porcelain").stdout.strip()
     if st:
-        print("refusing: /repo is dirty:\n" + st)
+        print(f"refusing: {tree} is dirty:\n" + st)
         return 2
-    r = sh(f"git -C /repo apply --whitespace=nowarn {patch}")
+    r = sh(f"git -C {tree} apply --whitespace=nowarn {patch}")
     if r.returncode != 0:
-        r = sh(f"git -C /repo apply --3way --whitespace=nowarn {patch}")
+        r = sh(f"git -C {tree} apply --3way --whitespace=nowarn {patch}")
         if r.returncode != 0:
             print("patch does not apply:", r.stderr[:500])
-            sh("git -C /repo checkout -- . && git -C /repo reset -q")
+            sh(f"git -C {tree} checkout -- . && git -C {tree} reset -q")
             return 2
     try:
-        out = sh(f"cd {VERIF} && ./check all quick")
+        out = sh(f"cd {VERIF} && {env}./check all quick")
         fired = {}
         for line in out.stdout.splitlines():
             m = re.match(r"\s*violation: rule=(\S+) site=(\S+) (\S+) construct=(.*?) -- ", line)
@@ -44,8 +48,9 @@ def main():
         print(json.dumps({"patch": patch, "violating_properties": props, "rules": fired}, indent=1))
         return 0
     finally:
-        sh("git -C /repo checkout -- . && git -C /repo reset -q")
-        sh(f"cd {VERIF} && git checkout -q -- evidence 2>/dev/null")
+        sh(f"git -C {tree} checkout -- . && git -C {tree} reset -q")
+        if tree == "/repo":
+            sh(f"cd {VERIF} && git checkout -q -- evidence 2>/dev/null")
 
 
 if __name__ == "__main__":
